@@ -284,6 +284,48 @@ func dagRec(n int) *zoo.RecDag {
 	return root
 }
 
+// dagRecI: an acyclic chain of n nodes; every node holds a nil pointer in an interface member, and
+// one finished leaf (which holds one too) is referenced from two neighbouring nodes at every depth
+// in at - sharing right after an interface value that is encoded as null.
+func dagRecI(n int, at ...int) *zoo.RecDagI {
+	leaf := &zoo.RecDagI{ID: -1, V: (*int)(nil), W: (*zoo.RecDagI)(nil)}
+	root := &zoo.RecDagI{ID: 0, V: 0}
+	cur := root
+	for i := 1; i < n; i++ {
+		nx := &zoo.RecDagI{ID: i, V: (*string)(nil)}
+		if i%2 == 0 {
+			nx.V = i
+		}
+		for _, a := range at {
+			if i == a || i == a+1 {
+				nx.Side = leaf
+			}
+		}
+		cur.Next = nx
+		cur = nx
+	}
+	return root
+}
+
+func chainIfaceFirst(n int) *zoo.RecIfaceFirst {
+	var cur *zoo.RecIfaceFirst
+	for i := 0; i < n; i++ {
+		cur = &zoo.RecIfaceFirst{V: i, Next: cur}
+		if i%7 == 3 {
+			cur.V = map[string]interface{}{"k": []interface{}{i}}
+		}
+	}
+	return cur
+}
+
+func chainIfaceFirstV(n int) zoo.RecIfaceFirstV {
+	cur := zoo.RecIfaceFirstV{V: zoo.SmallShape{V: -1}, N: -1}
+	for i := 0; i < n; i++ {
+		cur = zoo.RecIfaceFirstV{V: zoo.SmallShape{V: i}, Kids: []zoo.RecIfaceFirstV{cur}, N: i}
+	}
+	return cur
+}
+
 func chainRecB(n int) *zoo.RecB {
 	var cur *zoo.RecB
 	for i := 0; i < n; i++ {
@@ -585,27 +627,30 @@ func init() {
 				d := depths[k]
 				vals := []any{chainRecA(d, nil), chainRecA(d, &zoo.RecA{I: nestedIface(d % 60)}), chainRecB(d), chainRecE(d), chainRecC(d), nestedIface(d),
 					[]interface{}{chainRecB(d / 2), chainRecE(d / 2)}, map[string]interface{}{"a": chainRecC(d / 2), "b": nestedIface(d / 2)}, dagRec(d), dagRec(d + 1),
-					chainRecIP(d, 0), chainRecIP(d, 1), []interface{}{chainRecIP(d/2, 2), chainRecIP(minInt(d, 3), 3)}}
+					chainRecIP(d, 0), chainRecIP(d, 1), []interface{}{chainRecIP(d/2, 2), chainRecIP(minInt(d, 3), 3)},
+					dagRecI(d+2, 1, d/2, d-1), chainIfaceFirst(d), chainIfaceFirst(d + 2), chainIfaceFirstV(d)}
 				for i, x := range vals {
 					if !c.Cur(i, fmt.Sprintf("shapes=core\ndeep chain %T depth %d", x, d)) {
 						continue
 					}
 					ips := interps
-					if d > 500 && i >= 5 {
+					if d > 500 && i >= 5 && i < 13 {
 						// towers of maps inside interfaces: indented output is quadratic in depth and
 						// go-json's per-level map buffers make memory cubic; only the compact
 						// interpreters are driven at these depths (a memory budget is not a safety verdict)
 						ips = []c08Interp{interps[0], interps[2]}
 					}
 					c08Run(c, i, x, reflect.TypeOf(x), "", ips, false)
-					// result must still be what encoding/json produces (clobbered frames garble output)
-					if d <= 200 || i >= 8 {
+					// result must still be what encoding/json produces (clobbered frames garble output);
+					// the verdict is compared at every depth: an acyclic value is not a cycle, however
+					// deep it is and whatever shares an address on the way
+					{
 						gb1, gerr := gojson.Marshal(x)
 						sb1, serr := stdjson.Marshal(x)
 						c.Eval(1)
 						if (gerr != nil) != (serr != nil) {
 							c.Violate(rt.Violation{Monitor: "enc-safety", Entry: "vm", Kind: "deep-chain-verdict-differs", Ctx: fmt.Sprintf("%T", x), Detail: fmt.Sprint(gerr, " vs ", serr), Sub: i})
-						} else if gerr == nil {
+						} else if gerr == nil && (d <= 200 || i >= 8) {
 							a, e1 := oracle.Parse(gb1)
 							b, _ := oracle.Parse(sb1)
 							if e1 != nil || b == nil || !oracle.Equal(a, b) {
